@@ -155,7 +155,9 @@ theorem pushRejected_thr {c1 c2 : ScanCfg} (h : ThrLe c1 c2) {s1 s2 : Scanner} (
         rw [tp, h.lang]
         split
         · exact ⟨rfl, rfl, tt.advanced pos⟩
-        · exact setPrev_thr (outside_thr h (setParser_thr ⟨tp, tprev, tt⟩ _) tok) _
+        · split
+          · exact setPrev_thr (setParser_thr ⟨tp, tprev, tt⟩ _) _
+          · exact setPrev_thr (outside_thr h (setParser_thr ⟨tp, tprev, tt⟩ _) tok) _
   · simp only [hn, Bool.false_eq_true, if_false]
     exact setPrev_thr (outside_thr h hs tok) _
 
